@@ -190,6 +190,155 @@ fn gen_serde<F: Fld>(rng: &mut Rng, emit: &mut dyn FnMut(String)) {
     }
 }
 
+/// the small integer conversions, per concrete type (which impls exist differs per field):
+/// `fromint W v`   element from an unsigned integer of W bits (W = 1: bool), `From<uW>`
+/// `tryint W v`    `TryFrom<u64 | u128 | usize (W = 0)>`, `tryarr hex` `TryFrom<[u8; 8]>`
+/// `into W raw`    integer of W bits from the element with internal word `raw` (`From<BaseElement> for u64/u128`,
+///                 `TryFrom<BaseElement> for bool/u8/u16/u32`); combinations a field does not implement fall back to the
+///                 canonical value so that the op stays comparable with the model
+fn exec_conv(f: &str, t: &[&str]) -> Option<Outcome> {
+    fn small<T: TryFrom<u128>>(v: u128) -> Option<T> {
+        T::try_from(v).ok()
+    }
+    macro_rules! from_or {
+        ($F:ty, $v:expr, $( $W:literal => $T:ty ),*) => {{
+            let (w, v): (u32, u128) = $v;
+            match w { $( $W => small::<$T>(v).map(|x| <$F>::from(x)), )* _ => None }
+        }};
+    }
+    macro_rules! go {
+        ($F:ty, from: [$( $FW:literal => $FT:ty ),*], bool_from: $BF:expr, try64: $T64:expr, tryusize: $TUS:expr, arr8: $ARR:expr,
+         into: [$( $IW:literal => $IT:ty ),*], tryinto: [$( $TW:literal => $TT:ty ),*], bool_into: $BI:expr) => {{
+            type F = $F;
+            let m = <F as Fld>::MOD;
+            let name = <F as Fld>::NAME;
+            match t {
+                ["fromint", w, v] => {
+                    let (w, v): (u32, u128) = (w.parse().ok()?, v.parse().ok()?);
+                    if w > 64 || (w < 128 && v >> w != 0) || w == 0 { return Some(Outcome::ok("bad-op")); }
+                    let real: Option<F> = if w == 1 {
+                        if $BF { Some(bool_elem::<F>(v == 1)) } else { None }
+                    } else {
+                        from_or!(F, (w, v), $( $FW => $FT ),*)
+                    };
+                    let x = real.unwrap_or_else(|| F::from_word(v));
+                    Some(check_elem(Outcome::ok(elem(&x)), &format!("from_u{}", w), &x, v % m))
+                },
+                ["tryint", w, v] => {
+                    let (w, v): (u32, u128) = (w.parse().ok()?, v.parse().ok()?);
+                    let r: Result<F, ()> = match w {
+                        128 => F::try_u128(v),
+                        64 if $T64 && v <= u64::MAX as u128 => try64::<F>(v as u64),
+                        0 if $TUS && v <= usize::MAX as u128 => tryusize::<F>(v as usize),
+                        _ => if v < m { Ok(F::from_word(v)) } else { Err(()) },
+                    };
+                    let mut o = Outcome::ok(match &r { Ok(x) => format!("ok {}", x.canon()), Err(_) => "err".to_string() });
+                    match &r {
+                        Ok(x) if v >= m || x.canon() != v || !F::raw_ok(x.raw_word()) => o = o.fail(format!("{}.try_from_int", name), format!("accepted {} (width {}) as {}", v, w, x.canon())),
+                        Err(_) if v < m => o = o.fail(format!("{}.try_from_int", name), format!("rejected {} (width {})", v, w)),
+                        _ => {},
+                    }
+                    Some(o)
+                },
+                ["tryarr", h] => {
+                    let bytes = unhex(h);
+                    if bytes.len() != 8 { return Some(Outcome::ok("bad-op")); }
+                    let v = u64::from_le_bytes(bytes.clone().try_into().unwrap()) as u128;
+                    let r: Result<F, ()> = if $ARR { tryarr8::<F>(bytes.try_into().unwrap()) } else if v < m { Ok(F::from_word(v)) } else { Err(()) };
+                    let mut o = Outcome::ok(match &r { Ok(x) => format!("ok {}", x.canon()), Err(_) => "err".to_string() });
+                    match &r {
+                        Ok(x) if v >= m || x.canon() != v => o = o.fail(format!("{}.try_from_arr", name), format!("accepted {} as {}", v, x.canon())),
+                        Err(_) if v < m => o = o.fail(format!("{}.try_from_arr", name), format!("rejected {}", v)),
+                        _ => {},
+                    }
+                    Some(o)
+                },
+                ["into", w, raw] => {
+                    let (w, raw): (u32, u128) = (w.parse().ok()?, raw.parse().ok()?);
+                    if !F::raw_ok(raw) { return Some(Outcome::ok("bad-op")); }
+                    let x = F::from_raw_word(raw);
+                    let va = raw_val::<F>(raw);
+                    let fits = match w { 1 => va <= 1, 128 => true, _ => va >> w == 0 };
+                    let expect = if fits { format!("{}", va) } else { "err".to_string() };
+                    let got: Option<String> = match w {
+                        $( $IW => Some(format!("{}", <$IT>::from(x))), )*
+                        $( $TW => Some(match <$TT>::try_from(x) { Ok(v) => format!("{}", v), Err(_) => "err".to_string() }), )*
+                        1 if $BI => Some(match bool_try::<F>(x) { Some(b) => format!("{}", b as u8), None => "err".to_string() }),
+                        _ => None,
+                    };
+                    let out = got.clone().unwrap_or_else(|| expect.clone());
+                    let mut o = Outcome::ok(out.clone());
+                    if out != expect {
+                        o = o.fail(format!("{}.into_u{}", name, w), format!("residue {} (raw word {}) converted to {}, expected {}", va, raw, out, expect));
+                    }
+                    Some(o)
+                },
+                _ => None,
+            }
+        }};
+    }
+    match f {
+        "f64" => go!(f64::BaseElement, from: [8 => u8, 16 => u16, 32 => u32], bool_from: true, try64: true, tryusize: true, arr8: true,
+                     into: [64 => u64, 128 => u128], tryinto: [8 => u8, 16 => u16, 32 => u32], bool_into: true),
+        "f62" => go!(f62::BaseElement, from: [8 => u8, 16 => u16, 32 => u32], bool_from: false, try64: true, tryusize: false, arr8: true,
+                     into: [64 => u64, 128 => u128], tryinto: [], bool_into: false),
+        "f128" => go!(f128::BaseElement, from: [8 => u8, 16 => u16, 32 => u32, 64 => u64], bool_from: false, try64: false, tryusize: false, arr8: false,
+                     into: [128 => u128], tryinto: [], bool_into: false),
+        _ => None,
+    }
+}
+
+/// helpers for impls that exist for some of the fields only (resolved through small traits)
+trait ConvExtra: Sized {
+    fn try64(_v: u64) -> Result<Self, ()> { Err(()) }
+    fn tryusize(_v: usize) -> Result<Self, ()> { Err(()) }
+    fn tryarr8(_b: [u8; 8]) -> Result<Self, ()> { Err(()) }
+    fn from_bool(_b: bool) -> Option<Self> { None }
+    fn to_bool(self) -> Option<Option<bool>> { None }
+}
+impl ConvExtra for f64::BaseElement {
+    fn try64(v: u64) -> Result<Self, ()> { Self::try_from(v).map_err(|_| ()) }
+    fn tryusize(v: usize) -> Result<Self, ()> { Self::try_from(v).map_err(|_| ()) }
+    fn tryarr8(b: [u8; 8]) -> Result<Self, ()> { Self::try_from(b).map_err(|_| ()) }
+    fn from_bool(b: bool) -> Option<Self> { Some(Self::from(b)) }
+    fn to_bool(self) -> Option<Option<bool>> { Some(bool::try_from(self).ok()) }
+}
+impl ConvExtra for f62::BaseElement {
+    fn try64(v: u64) -> Result<Self, ()> { Self::try_from(v).map_err(|_| ()) }
+    fn tryarr8(b: [u8; 8]) -> Result<Self, ()> { Self::try_from(b).map_err(|_| ()) }
+}
+impl ConvExtra for f128::BaseElement {}
+fn try64<F: ConvExtra>(v: u64) -> Result<F, ()> { F::try64(v) }
+fn tryusize<F: ConvExtra>(v: usize) -> Result<F, ()> { F::tryusize(v) }
+fn tryarr8<F: ConvExtra>(b: [u8; 8]) -> Result<F, ()> { F::tryarr8(b) }
+fn bool_elem<F: ConvExtra + Fld>(b: bool) -> F { F::from_bool(b).unwrap_or_else(|| F::from_word(b as u128)) }
+fn bool_try<F: ConvExtra>(x: F) -> Option<bool> { x.to_bool().flatten() }
+
+fn gen_conv<F: Fld>(rng: &mut Rng, emit: &mut dyn FnMut(String)) {
+    let f = F::NAME;
+    let m = F::MOD;
+    let bnd = boundary(m, F::word_bits());
+    let rawlim = if f == "f62" { 2 * m } else { m };
+    for w in [1u32, 8, 16, 32, 64] {
+        let top = if w == 64 { u64::MAX as u128 } else { (1u128 << w) - 1 };
+        let mut vs = vec![0u128, 1, 2, top / 2, top - 1, top];
+        if w == 64 { vs.extend([m.min(top), m.saturating_sub(1).min(top), (m + 1).min(top), (1u128 << 63), (1u128 << 32) - 1, 1u128 << 32]); }
+        for _ in 0..6 { vs.push(rng.u128() & top); }
+        for v in vs { if v <= top { emit(format!("{} fromint {} {}", f, w, v)); } }
+    }
+    let mut ints: Vec<u128> = bnd.clone();
+    for d in 0..3u128 { ints.extend([m + d, m - 1 - d, (1u128 << 64) - 1 - d, (1u128 << 64) + d, u128::MAX - d, m.wrapping_mul(2).wrapping_add(d), (1u128 << 63) + d, (1u128 << 32) - 1 + d]); }
+    for _ in 0..40 { ints.push(rng.u128()); ints.push(rng.u64() as u128); ints.push(rng.u128() % m); }
+    for v in &ints {
+        for w in [128u32, 64, 0] { emit(format!("{} tryint {} {}", f, w, v)); }
+        if *v <= u64::MAX as u128 { emit(format!("{} tryarr {}", f, hex(&(*v as u64).to_le_bytes()))); }
+    }
+    let mut raws: Vec<u128> = bnd.iter().cloned().filter(|x| *x < rawlim).collect();
+    raws.extend([0, 1, 2, 255, 256, 65535, 65536, (1u128 << 32) - 1, 1u128 << 32, m - 1, m % rawlim, (m + 1) % rawlim, (m + 255) % rawlim, (m + 256) % rawlim, rawlim - 1]);
+    for _ in 0..60 { raws.push(rng.u128() % rawlim); raws.push(rng.u128() % 300); }
+    for r in raws { for w in [1u32, 8, 16, 32, 64, 128] { emit(format!("{} into {} {}", f, w, r)); } }
+}
+
 fn exec_f<F: Fld>(t: &[&str]) -> Outcome {
     let m = F::MOD;
     let p = |s: &str| s.parse::<u128>().unwrap();
@@ -644,6 +793,9 @@ impl Prop for P {
             gen_serde::<f62::BaseElement>(rng, emit);
             gen_serde::<f128::BaseElement>(rng, emit);
         }
+        gen_conv::<f64::BaseElement>(rng, emit);
+        gen_conv::<f62::BaseElement>(rng, emit);
+        gen_conv::<f128::BaseElement>(rng, emit);
         // volume runs judged by the oracle only: quick 2^22 inversions per loop-based field, thorough 2^30 for
         // the 128-bit field (events of probability ~1e-9, e.g. the rarest trip counts of the final reduction loop)
         let chunk: u64 = 1 << 16;
@@ -664,6 +816,11 @@ impl Prop for P {
         #[cfg(feature = "serde")]
         if t.len() > 1 {
             if let Some(o) = exec_serde(t[0], &t[1..]) {
+                return o;
+            }
+        }
+        if t.len() > 1 {
+            if let Some(o) = exec_conv(t[0], &t[1..]) {
                 return o;
             }
         }
